@@ -171,6 +171,11 @@ def run_family(prog, fam_name, setup, post, contracts=None, force_contract=(), b
             ob.idx = idx
             fam.obls.append(ob)
         post(I, res, emit)
+        # C10 cross-check: on this path the executor saw no store to a structural field of
+        # an existing object
+        from . import frames
+        bad = frames.heap_log_violations(I)
+        emit("frame:only-memo-fields-written", ["C10"], z3.BoolVal(not bad), info="; ".join(bad[:4]) or None)
     fam.seconds = time.time() - t0
     return fam
 
